@@ -68,6 +68,8 @@ class LibMixin:
                 raise Unsupported("isinstance against extern %s" % kob.dotted)
         elif isinstance(kob, ClassObj):
             kcid = kob.cid
+        elif isinstance(kob, BuiltinFn) and kob.name in self.table.ids:
+            kcid = self.table.id(kob.name)        # str / int / float / bool / dict ... used as classes
         else:
             raise Unsupported("isinstance against %s" % type(kob).__name__)
         return Val.VBool(self.isinstance_term(v, kcid))
